@@ -6,6 +6,7 @@ import (
 	"context"
 	"errors"
 	"fmt"
+	"runtime"
 	"sync"
 	"sync/atomic"
 	"time"
@@ -80,6 +81,10 @@ type RecStream[T any] struct {
 	Gaps      []time.Duration
 	EndGap    time.Duration
 	BlockAt   int
+	// GoexitAt: if k > 0, the call of Next that finds k-1 items handed out ends the goroutine it runs on with
+	// runtime.Goexit (what t.FailNow, t.Fatal and t.Skip do inside a test double): deferred calls of that
+	// goroutine still run, nothing else does
+	GoexitAt  int
 	IgnoreCtx bool // do not look at ctx when it is already done (still honours it while waiting)
 	// Deaf: ignore ctx completely (no early return, delays are not interruptible). The Stream contract
 	// does not oblige a source to watch its context; such a source still answers every call.
@@ -166,6 +171,10 @@ func (s *RecStream[T]) Next(ctx context.Context) (T, error) {
 	}
 	s.mu.Unlock()
 
+	if s.GoexitAt > 0 && pos >= s.GoexitAt-1 {
+		ret(zero, errors.New("runtime.Goexit"))
+		runtime.Goexit()
+	}
 	if s.BlockAt >= 0 && pos >= s.BlockAt {
 		<-ctx.Done()
 		return ret(zero, ctx.Err())
